@@ -54,8 +54,13 @@ RULES = {
     "local that was read from that attribute before the loop and never refreshed - each iteration would start again from the old tuple "
     "and undo the previous one, so of a node annotated under two configurations only the last is bound to the configuration "
     "registered on the model after a round trip",
+    "R14": "stage 0, device 0 and axis 0 are values (shared rule S10): in the annotation API (the methods of Node and Model, the "
+    "device-annotation module, the cloner's remapping) an expression declared as an optional number - a pipeline stage, an axis, a "
+    "device index, a count - is never tested by truthiness: `if existing.pipeline_stage and stage != existing.pipeline_stage` treats a "
+    "node already assigned to stage 0 as one without a stage, so a conflicting `shard(..., pipeline_stage=1)` is accepted and moves "
+    "the node instead of being rejected without effect",
 }
-FLOORS = {"R1": 12, "R2": 4, "R3": 4, "R4": 4, "R5": 4, "R6": 6, "R7": 2, "R8": 3, "R9": 2, "R10": 10, "R11": 10, "R12": 1, "R13": 3}
+FLOORS = {"R1": 12, "R2": 4, "R3": 4, "R4": 4, "R5": 4, "R6": 6, "R7": 2, "R8": 3, "R9": 2, "R10": 10, "R11": 10, "R12": 1, "R13": 3, "R14": 1}
 EXPLANATION = (
     "Structural checks on the record classes, on every writer of a node's input/output tuples, on the serializer's "
     "name derivation, the C06 write-before-reject analysis for the annotation API, and ordering (dominator) checks in "
@@ -496,7 +501,27 @@ def rule_r13(ctx):
     ctx.require(n >= 3, f"only {n} attribute stores inside loops found")
 
 
+def rule_r14(ctx):
+    from ..shared import optional_number_truth_tests
+
+    n_f = n = 0
+    for f in _annotation_api(ctx.repo):
+        n_f += 1
+        for node, t, src in optional_number_truth_tests(ctx.repo, ctx.typer, f):
+            n += 1
+            ok = isinstance(node, ast.BoolOp) and isinstance(node.op, ast.Or) and len(node.values) == 2 and node.values[0] is t \
+                and isinstance(node.values[1], ast.Constant) and node.values[1].value == 0 and node.values[1].value is not False
+            ctx.check("R14", f"S10 {f.local}: presence of {norm(t)} ({src}) is tested with `is None`", ok, f, node,
+                      f"`{norm(t)}` is declared `{src}`: an optional number - and is tested by truthiness: the value 0 (pipeline stage 0, axis 0, device 0) is handled as "
+                      "\"not set\", so a request that conflicts with it is accepted (the node silently changes stage, the annotation is recorded) instead of being rejected without effect",
+                      how="declared type of the tested expression (S10 source tracing through locals, loops and annotated fields) is an optional number",
+                      construct=f"truthiness of optional number {src}")
+    ctx.ob("R14", f"{n_f} functions of the annotation API examined for truthiness tests of optional numbers ({n} found)", True, how="S10")
+    ctx.require(n_f >= 30, f"only {n_f} functions found in the annotation API")
+
+
 def run(ctx):
+    rule_r14(ctx)
     from ..shared import rule_s17
 
     rule_r13(ctx)
